@@ -23,8 +23,9 @@ VARIABLES toks, cur, dirty, done, log, start
 P == INSTANCE Pipeline
 T(k) == [k |-> k, w |-> ""]
 W(w) == [k |-> "TEXT", w |-> w]
-Alphabet == {T("TIME"), T("TIMEZONE"), T("NUMBER"), T("DURATION"), T("DATE"), T("PERCENT"), T("MONEY"), T("MONTH"),
-             W("to"), W("as"), W("hours"), W("of"), W("usd"), W("date")}
+WordsJ == JsonDeserialize(IOEnv.RULES).words       \* the words of the alphabet, in the language of the rule table
+Alphabet == {T("TIME"), T("TIMEZONE"), T("NUMBER"), T("DURATION"), T("DATE"), T("PERCENT"), T("MONEY"), T("MONTH")}
+            \cup {W(WordsJ[i]) : i \in DOMAIN WordsJ}
 RECURSIVE SeqsUpTo(_)
 SeqsUpTo(n) == IF n = 0 THEN {<<>>} ELSE LET S == SeqsUpTo(n - 1) IN S \cup {Append(s, a) : s \in {x \in S : Len(x) = n - 1}, a \in Alphabet}
 mvars == <<toks, cur, dirty, done, log, start>>
